@@ -47,7 +47,9 @@ def term_line(t) -> str:
     if k == 'empty':
         return 'E'
     if k == 'cset':
-        return f'C {len(t[1])} ' + ' '.join(map(str, t[1]))
+        return f'C {len(t[1])} ' + ' '.join(f'p{e[1]}' if isinstance(e, tuple) else str(e) for e in t[1])
+    if k == 'param':
+        return f'M {t[1]}'
     if k == 'var':
         return f'V {t[1]}'
     if k == 'root':
@@ -98,7 +100,8 @@ def schema_line(sch) -> str:
     fs = ';'.join(f"{f['params'] or '-'},{f['ret']},{int(f['isOp'])},{f['kind']},{f['impl']}"
                   for f in sch['fns']) or '-'
     ds = ','.join(f"{t}:{'.'.join(map(str, d))}" for t, d in sorted(sch.get('descs', {}).items()) if d) or '-'
-    return f'{ps}|{fs}|{ds}'
+    pr = ''.join('1' if r else '0' for r in sch.get('params', [])) or '-'
+    return f'{ps}|{fs}|{ds}|{pr}'
 
 
 def descs_of(children, ntypes):
@@ -125,7 +128,8 @@ def db_line(db) -> str:
     def v(x):
         return f'o{x[1]}' if isinstance(x, tuple) else f'i{x}'
     ds = ';'.join(f'{p}:{i}=' + ' '.join(v(x) for x in vals) for (p, i), vals in db['ptrs'].items()) or '-'
-    return f'{os_}|{ds}'
+    pv = ','.join('n' if x is None else str(x) for x in db.get('params', [])) or '-'
+    return f'{os_}|{ds}|{pv}'
 
 
 def term_size(t) -> int:
@@ -333,6 +337,9 @@ class RealIR:
         self.env.set_types[s] = self.stype_of(ty) if ty is not None else None
         return s
 
+    def param(self, i):
+        return self.irast.Parameter(name=f'p{i}', required=bool(self.sch['params'][i]), typeref=self.tr_int)
+
     def tm(self, c):
         T = self.qlt.TypeModifier
         return {'S': T.SingletonType, 'O': T.OptionalType, 'A': T.SetOfType}[c]
@@ -384,8 +391,11 @@ class RealIR:
         if k == 'empty':
             return self.mkset(irast.EmptySet(typeref=self.tr_int), self.tr_int, None)
         if k == 'cset':
-            els = tuple(irast.IntegerConstant(value=str(n), typeref=self.tr_int) for n in t[1])
+            els = tuple(self.param(e[1]) if isinstance(e, tuple) else
+                        irast.IntegerConstant(value=str(e), typeref=self.tr_int) for e in t[1])
             return self.mkset(irast.ConstantSet(elements=els, typeref=self.tr_int), self.tr_int, None)
+        if k == 'param':
+            return self.mkset(self.param(t[1]), self.tr_int, None)
         if k == 'var':
             b = binders[t[1]]
             s = self.mkset(b.expr, b.typeref, self._ty(b), path_id=b.path_id)
@@ -529,6 +539,7 @@ class Toy:
             elif vs:
                 data[bsid(i)][f'p{p}'] = vs[0]
         self.db = T.DB(data, {})
+        self.params = list(db.get('params', []))
 
     def q(self, t, depth=0):
         ql = self.ql
@@ -538,7 +549,10 @@ class Toy:
         if k == 'empty':
             return ql.Set(elements=[])
         if k == 'cset':
-            return ql.Set(elements=[ql.Constant(kind=ql.ConstantKind.INTEGER, value=str(n)) for n in t[1]])
+            return ql.Set(elements=[self.pval(e[1]) if isinstance(e, tuple) else
+                                    ql.Constant(kind=ql.ConstantKind.INTEGER, value=str(e)) for e in t[1]])
+        if k == 'param':
+            return self.pval(t[1])
         if k == 'var':
             # wrapped in a SELECT so that no implicit path factoring applies
             return ql.SelectQuery(result=ql.Path(steps=[ql.ObjectRef(name=f'x{depth - 1 - t[1]}')]))
@@ -605,6 +619,15 @@ class Toy:
                                result=self.q(t[2], depth + 1))
         raise ValueError(k)
 
+    def pval(self, i):
+        """the toy model has no parameters: `$i` is replaced by the argument it is bound to (`{}` for an
+        optional parameter that is not given)"""
+        ql = self.ql
+        v = self.params[i] if i < len(self.params) else None
+        if v is None:
+            return ql.Set(elements=[])
+        return ql.Constant(kind=ql.ConstantKind.INTEGER, value=str(v))
+
     def canon(self, v) -> str:
         T = self.T
         if isinstance(v, T.Obj):
@@ -641,6 +664,7 @@ def gen_schema(rng, ntypes=2, nptrs=6, inherit=True):
         ptrs.append(dict(src=rng.randrange(ntypes), required=rng.random() < 0.5, multi=multi, link=link,
                          exclusive=(link is None and rng.random() < 0.45) or (link is not None and rng.random() < 0.2)))
     return {'ptrs': ptrs, 'fns': [dict(f) for f in STD_FNS], 'ntypes': ntypes, 'children': children,
+            'params': [rng.random() < 0.4 for _ in range(rng.randint(0, 3))],
             'descs': {t: d for t, d in descs.items() if d}}
 
 
@@ -677,7 +701,9 @@ def gen_db(rng, sch, nobj=None):
             used.update(vals)
             if vals:
                 ptrs[(p, i)] = vals
-    return {'objs': objs, 'ptrs': ptrs}
+    # arguments: required parameters get a value, optional ones are empty half of the time
+    params = [rng.randint(0, 3) if (req or rng.random() < 0.5) else None for req in sch.get('params', [])]
+    return {'objs': objs, 'ptrs': ptrs, 'params': params}
 
 
 class TermGen:
@@ -705,6 +731,12 @@ class TermGen:
         c = [('lit', r.randint(0, 3)), ('lit', r.randint(0, 3)), ('empty',),
              ('cset', tuple(r.randint(0, 3) for _ in range(r.randint(1, 3))))]
         c += [('var', i) for i, t in enumerate(env) if t is None]
+        np_ = len(self.sch.get('params', []))
+        if np_:
+            c.append(('param', r.randrange(np_)))
+            # set literals of constants and parameters (folded into a ConstantSet by the front-end)
+            c.append(('cset', tuple(('p', r.randrange(np_)) if r.random() < 0.6 else r.randint(0, 3)
+                                    for _ in range(r.randint(2, 3)))))
         return c
 
     def gen_int(self, depth, env):
